@@ -11,8 +11,8 @@ From Coq Require Import List NArith ZArith Bool.
 Import ListNotations.
 From Base Require Import PyStr CliTypes Regex.
 From Gen Require Import Regexes.
-From Model Require Import Ast Transforms Typography Render Pipeline.
-From Proofs Require Import RegexSem TypoProofs RenderProofs RewriteProofs.
+From Model Require Import Ast Transforms Typography Render Pipeline InlineRead BlockRead.
+From Proofs Require Import RegexSem TypoProofs RenderProofs RewriteProofs CodeSpanProofs DestProofs FenceProofs.
 
 (* 1. Text rewrites visit only raw-text nodes: after the transform stage the literal content
    (Proofs/RewriteProofs.v: blk_lits) is that of the tree after cleanups, whatever the options. *)
@@ -73,3 +73,31 @@ Theorem C04_code_span_delimited : forall s,
     render_code_span s = repeat bq (S (longest_run bq s)) ++ pad ++ s ++ pad ++ repeat bq (S (longest_run bq s)).
 Proof. exact code_span_shape. Qed.
 Print Assumptions C04_code_span_delimited.
+
+(* 5. Read-back theorems (specifications Model/InlineRead.v, Model/BlockRead.v of a CommonMark reader):
+   the code span, destination, title and code block the renderer writes are read back as exactly the
+   literal the parser had handed over - nothing re-quoted, padded or truncated.  The one shape for
+   which the code-span statement fails is content with a space at both ends (finding D-49). *)
+Theorem C04_code_span_read_back : forall s tail,
+  s <> [] -> needs_padding s = false -> no_bq_head tail ->
+  read_code_span (render_code_span s ++ tail) = Some (s, tail).
+Proof. exact code_span_roundtrip. Qed.
+Print Assumptions C04_code_span_read_back.
+
+Theorem C04_destination_read_back : forall d tail, dest_ok d -> tail_ok tail ->
+  read_destination (link_destination d ++ tail) = Some (d, tail).
+Proof. exact destination_roundtrip. Qed.
+Print Assumptions C04_destination_read_back.
+
+Theorem C04_title_read_back : forall t tail, read_title (normalize_title_quotes t ++ tail) = Some (t, tail).
+Proof. exact title_roundtrip. Qed.
+Print Assumptions C04_title_read_back.
+
+Theorem C04_code_block_read_back : forall lang extra fc flen content st rest,
+  r_prefix st = [] -> r_prefix2 st = [] -> (fc = 96 \/ fc = 126)%N -> info_ok fc (info_of lang extra) ->
+  exists lines,
+    fst (render_code lang extra fc flen content st) = join [nlc] lines ++ [nlc] /\
+    read_fenced (lines ++ rest)
+    = Some (Fenced fc (fence_len fc flen content) (info_of lang extra) (code_lines content), rest).
+Proof. exact code_block_roundtrip. Qed.
+Print Assumptions C04_code_block_read_back.
